@@ -25,6 +25,10 @@ from simaple.simulate.component.base import ReducerMethodWrappingDispatcher
 from simaple.simulate.reserved_names import Tag
 from simaple.simulate.timer import timer_delay_dispatcher
 
+class MappingMismatch(Exception):
+    pass
+
+
 PENDING = ".previous_callbacks"
 CLOCK = "global.time"
 DYNAMICS = "global.dynamics"
@@ -121,22 +125,47 @@ def _owner(base: ReducerMethodWrappingDispatcher, viewset):
 def _job_params(comp, state, components) -> dict:
     """complib.params_of on the component with its bound entities of the INITIAL store, made independent of
     the state where the per-call harvest computes a parameter from the current state:
-      * tables indexed by a divine mark: the only mark the job can set is the DivineMinion's `mark_advantage`
+      * tables indexed by a divine mark: the marks the job can set are the `mark_advantage` of its DivineMinions
       * MobComponent.float_text: not used (the runner builds DOT payloads in canonical form itself)
       * ChainLightningVI `prob`: the exact value of the float `electric_current_prob`; the float addition
         `stable_rng_counter += prob` is modelled by the runner (`JobRunner.fadd`)"""
     cls = type(comp).__name__
     if cls == "MobComponent":
         return {"float_text": {}}
+    marks = []
     if cls in ("DivineAttackSkillComponent", "HexaAngelRayComponent"):
-        minions = [c for c in components if type(c).__name__ == "DivineMinion"]
-        if minions:
-            from simaple.simulate.component.specific.bishop import DivineMark
-            state = types.SimpleNamespace(**dict(vars(state), divine_mark=DivineMark(advantage=minions[0].mark_advantage)))
+        from simaple.simulate.component.specific.bishop import DivineMark
+        for minion in [c for c in components if type(c).__name__ == "DivineMinion"]:
+            st = types.SimpleNamespace(**dict(vars(state), divine_mark=DivineMark(advantage=minion.mark_advantage)))
+            for entry in complib.params_of(comp, st)["mod_table"]:
+                if entry not in marks:
+                    marks.append(entry)
     p = complib.params_of(comp, state)
+    if marks:
+        p["mod_table"] = marks
     if cls == "ChainLightningVIComponent":
         p["prob"] = ratq(comp.electric_current_prob)
     return p
+
+
+def expected_mapping(comp) -> list:
+    """`Component.get_method_mappings()` restated from the component's fields (keys in dict order): defaults
+    `<name>.<method>`, wildcards `*.<method>` (a wildcard entry overrides nothing: the keys differ), then the
+    listening actions (a key already present keeps its position, dict.update semantics)"""
+    from simaple.simulate.component.base import StaticPayloadReducerInfo
+    methods = list(getattr(comp, "__reducers__"))
+    order: dict = {}
+    for m in methods:
+        order[f"{comp.name}.{m}"] = (m, None)
+    for m in methods:
+        order[f"*.{m}"] = (m, None)
+    for sig, info in comp.listening_actions.items():
+        if isinstance(info, str):
+            order[sig] = (info, None)
+    for sig, info in comp.listening_actions.items():
+        if isinstance(info, StaticPayloadReducerInfo):
+            order[sig] = (info.name, canon(_num(info.payload)))
+    return [[k, v[0], v[1]] for k, v in order.items()]
 
 
 def export_job(job: str, variant: int = 0) -> dict:
@@ -172,6 +201,12 @@ def export_job(job: str, variant: int = 0) -> dict:
         for sig, w in b.reducer_mappings.items():
             static = w._static_payload
             mapping.append([sig, b.method_mappings[sig], None if static is None else canon(_num(static))])
+        # `__reducers__` is a frozenset: the order of the default / wildcard keys varies with the hash seed and plays
+        # no role (exact keys are looked up, only `$` keys are walked in order) -- compare as sets + `$` order
+        exp = expected_mapping(comp)
+        if sorted(map(tuple, [[a, b, c or ""] for a, b, c in exp])) != sorted(map(tuple, [[a, b, c or ""] for a, b, c in mapping])) \
+                or [e[0] for e in exp if e[0].startswith("$")] != [e[0] for e in mapping if e[0].startswith("$")]:
+            raise MappingMismatch(f"{cls} {b._name}: get_method_mappings built {mapping}, expected {exp}")
         modifier = getattr(comp, "modifier", None)
         comps.append({
             "cls": cls, "name": b._name, "params": _job_params(comp, state, components),
@@ -242,3 +277,116 @@ def first_difference(real: dict, model: dict) -> Optional[dict]:
                         return {"command": ci, "play": pi, "field": f"store[{k}]", "real": rp["store"].get(k),
                                 "model": mp["store"].get(k)}
     return None
+
+
+# ------------------------------------------------------------------ plans and the comparison
+def make_plan(rng, job: str, variant: int, kind: str, size: int) -> list:
+    """`random`: simlib.random_plan without debug lines; `rotation`: simlib.rotation_plan (size = rounds)"""
+    from simaple.simulate.policy.base import ConsoleText
+    if kind == "rotation":
+        cmds = simlib.rotation_plan(rng, job, variant, size)
+    else:
+        cmds = simlib.random_plan(rng, job, variant, size, with_console=False)
+    # debug lines are Python `eval` on the viewer: outside the model (random_plan's fixed patterns still contain some)
+    return [c for c in cmds if not isinstance(c, ConsoleText)]
+
+
+def prepare(job: str, variant: int, cmds: list) -> dict:
+    """the real run and the driver request of one plan (picklable; runs in a worker process)"""
+    try:
+        desc = export_job(job, variant)
+    except OffGrid as e:
+        return {"job": job, "variant": variant, "skipped": f"job description off grid: {e}", "request": None}
+    real = run_real(job, variant, cmds)
+    done = cmds[:len(real["logs"])]
+    return {"job": job, "variant": variant, "plan": [command_text(c) for c in cmds], "real": real,
+            "skipped": None if real["offgrid"] is None else f"off grid at command {real['offgrid']['command']}: "
+                                                             f"{real['offgrid']['value']}",
+            "request": model_request(desc, done)}
+
+
+def judge(prep: dict, answer: dict) -> Optional[dict]:
+    """None if the model run agrees with the real run, else the first difference"""
+    base = {"job": prep["job"], "variant": prep["variant"], "plan": prep["plan"]}
+    if "ok" not in answer:
+        return dict(base, field="driver error", driver=str(answer)[:600])
+    m = answer["ok"]
+    if not m.get("no_clock_bind", False):
+        return dict(base, field="a component is bound to global.time (hypothesis of C06_Job)")
+    d = first_difference(prep["real"], m)
+    if d is not None:
+        return dict(base, **d)
+    errs = [(ci, pi, e) for ci, l in enumerate(m["logs"]) for pi, p in enumerate(l["playlogs"])
+            for e in p["events"] if e["tag"] == "#error"]
+    if errs:       # cannot happen when the events agree (the real run has no such tag); kept as a guard
+        return dict(base, command=errs[0][0], play=errs[0][1], field="model error event", model=errs[0][2])
+    return None
+
+
+def fadd_pairs(rng, n: int = 300) -> list:
+    """double pairs for the float-addition model: the accumulation `x += 0.2 (mod 1)` of CurrentField.stack_rng,
+    random magnitudes, exact ties"""
+    pairs, x = [], 0.0
+    for _ in range(60):
+        pairs.append((x, 0.2))
+        x += 0.2
+        if x >= 1.0:
+            x -= 1.0
+    while len(pairs) < n:
+        a = rng.choice([rng.random(), rng.uniform(-5, 5), rng.uniform(0, 1e9), float(rng.randint(0, 2 ** 60)),
+                        2.0 ** rng.randint(-30, 60), 0.1 * rng.randint(0, 50)])
+        b = rng.choice([rng.random(), rng.uniform(-5, 5), rng.uniform(0, 1e9), -a, 2.0 ** -53,
+                        2.0 ** -52 * rng.choice([0.5, 1.5, 2.5]), 0.01 * rng.randint(0, 99)])
+        pairs.append((a, b))
+    return pairs
+
+
+def compare(ck, units_: list, label: str = "JobRunner (end-to-end) vs real engine", timeout: float = 600) -> dict:
+    """units_: prepared plans (`prepare`).  Sends every request to the driver in one run and diffs play by play;
+    every failure mode becomes a `ck.broken` entry of kind "correspondence".  Returns the statistics."""
+    stats = {"plans": len(units_), "skipped_offgrid": 0, "compared": 0, "plays": 0, "events": 0, "commands": 0,
+             "disagreements": 0, "real_raised": 0, "per_job": {}}
+    todo = []
+    for u in units_:
+        if u["request"] is None or (u["skipped"] and not u["real"]["logs"]):
+            stats["skipped_offgrid"] += 1
+            continue
+        if u["skipped"]:
+            stats["skipped_offgrid"] += 1          # compared up to the command before the off-grid value
+        if u["real"]["raised"]:
+            stats["real_raised"] += 1
+        todo.append(u)
+    if not todo:
+        return stats
+    fpairs = fadd_pairs(ck.rng)
+    res = ck.driver([{"fn": "fadd", "pairs": [[ratq(a), ratq(b)] for a, b in fpairs]}] + [u["request"] for u in todo],
+                    timeout=timeout)
+    if res is not None:
+        got = res[0].get("ok")
+        want = [ratq(a + b) for a, b in fpairs]
+        if got != want:
+            bad = [(a, b) for (a, b), g, w in zip(fpairs, got or [], want) if g != w][:3]
+            ck.broken.append({"kind": "correspondence", "point": label + ": JobRunner.fadd vs Python float addition",
+                              "pairs": bad, "driver": None if got else res[0]})
+        stats["fadd_pairs"] = len(fpairs)
+        res = res[1:]
+    if res is None:
+        for b in ck.broken:
+            if b.get("kind") in ("driver", "model-build"):
+                b["kind"], b["point"] = "correspondence", label
+        return stats
+    for u, r in zip(todo, res):
+        stats["compared"] += 1
+        stats["commands"] += len(u["real"]["logs"])
+        plays = sum(len(l["playlogs"]) for l in u["real"]["logs"])
+        stats["plays"] += plays
+        stats["events"] += sum(len(p["events"]) for l in u["real"]["logs"] for p in l["playlogs"])
+        pj = stats["per_job"].setdefault(u["job"], {"plans": 0, "plays": 0})
+        pj["plans"] += 1
+        pj["plays"] += plays
+        d = judge(u, r)
+        if d is not None:
+            stats["disagreements"] += 1
+            if stats["disagreements"] <= 3:
+                ck.broken.append({"kind": "correspondence", "point": label, **d})
+    return stats
